@@ -49,6 +49,20 @@ def main(prop, path):
         print("compile-sequence counterexample:", rec.get("seq"), [i[0] for i in rec.get("items", [])])
         print("re-run ./check", prop, "to re-decide it on the current tree")
         return 1
+    if kind == "e2e":
+        from vlib import jasmapi
+        import regex as _regex
+
+        tpl = rec["template"]
+        regex_text = jasmapi.compile_rule(tpl["doc"], tpl.get("macros"))
+        stream = jasmapi.parse_listing(rec["listing"])
+        direct = _regex.search(regex_text, stream) is not None
+        try:
+            got = jasmapi.run_pipeline(tpl["doc"], rec["listing"], tpl.get("macros"), all_matches=False, ret="bool")
+        except Exception as e:
+            got = f"{type(e).__name__}: {e}"
+        print(f"listing parses to {stream!r}; compiled regex applied directly matches={direct}; MasterOfPuppets answers {got}")
+        return 1 if direct and got is not True else 0
     if kind == "e2en":
         from vlib import jasmapi
 
